@@ -82,12 +82,7 @@ static void prop_model(Tape &t, Ctx &c) {
     double allow = 200.0 * U * kappa * (iters + 2.0) * unit + 64 * U;
     double diff = std::abs(reported - truth), big = std::max(reported, truth);
     c.label(bucket(allow / 1e-8, {0.01, 0.1, 1}, "allow/tol"));
-    bool gap_region = sc.type == IDRS || sc.type == BICGSTABL; // F-recursion-gap, see c01_truth.cpp (defaults: no residual replacement)
-    bool strict = diff <= 0.01 * big + allow && truth < 1.1e-8 + allow;
-    if (!strict && gap_region) {
-        VF_REQUIRE(big <= 1e-3 * unit || diff <= 0.01 * big + 1000.0 * allow, solver_name[sc.type] << ": reported " << reported << " but true residual " << truth << " (1000 x allowance " << 1000 * allow << ")");
-        c.label("recursion-gap"); if (c.known("F-recursion-gap")) return;
-    }
+    // no F-recursion-gap class here: with n > 1000 and <= 100 iterations the Krylov space is never exhausted
     VF_REQUIRE(diff <= 0.01 * big + allow, "reported residual " << std::setprecision(10) << reported << " but true " << (left ? "preconditioned " : "") << "relative residual is " << truth << " (allowance " << 0.01 * big + allow << ", kappa_inf <= " << kappa << ")");
     VF_REQUIRE(truth < 1.1e-8 + allow, "reported " << reported << " < 1e-8 but the true residual is " << truth);
 }
